@@ -745,7 +745,15 @@ def run_sequence(arg):
         rid = id(root)
         call = None
         read_caches(root)
-        if script and script[step][0] == 'raw-to':
+        if script and script[step][0] == 'raw-slice':
+            _, path, field, start, stop, new = script[step]
+            op = r['op'] = 'raw-slice'
+            rect = slice_rect(tree0, lines, path, field, start, stop)
+            cont = root.child_from_path(_astpath(path)) if path else root
+            r.update(rect=rect, new=new, rk='scripted-history', nk='scripted', on=cont.a.__class__.__name__, node_path=path,
+                     slice=[field, start, stop])
+            call = lambda: cont.put_slice(new, start, stop, field, raw=True)
+        elif script and script[step][0] == 'raw-to':
             _, path, to_path, new = script[step]
             op = r['op'] = 'raw-put-to'
             ra, rb = cpy_bloc(tree0, lines, path), cpy_bloc(tree0, lines, to_path)
@@ -805,6 +813,29 @@ def run_sequence(arg):
             r.update(rect=rect, new=new, rk='raw-node:' + ('stmtlike' if isinstance(node.a, STMTLIKE) else 'other'), nk=nk,
                      on=node.a.__class__.__name__, node_path=path)
             call = lambda: node.replace(new, raw=True, pars=False)
+        elif op == 'raw-slice':
+            conts = [f for f in root.walk(True) if f.a.__class__.__name__ in BLOCK_KINDS + ('Module',)]
+            cont = rng.choice(conts)
+            fields = [f for f in ('_body', 'orelse', 'finalbody', 'handlers', 'cases')
+                      if isinstance(getattr(cont.a, 'body' if f == '_body' else f, None), list) and getattr(cont.a, 'body' if f == '_body' else f)]
+            if not fields:
+                continue
+            field = rng.choice(fields)
+            path = _path_of(root, cont)
+            n = len(slice_elems(follow(tree0, path), field))
+            if not n:
+                continue
+            start = rng.randrange(n)
+            stop = rng.randint(start + 1, n)
+            rect = slice_rect(tree0, lines, path, field, start, stop)
+            if rect is None:
+                continue
+            ind = lines[rect[0]][:rect[1]] if not lines[rect[0]][:rect[1]].strip() else ''
+            kind = {'handlers': 'handler', 'cases': 'case'}.get(field, 'stmt')
+            new = rng.choice(SLICE_TEXTS[kind]).replace('\n', '\n' + ind)
+            r.update(rect=rect, new=new, rk='raw-slice:' + field, nk='slice-' + kind, on=cont.a.__class__.__name__, node_path=path,
+                     slice=[field, start, stop])
+            call = lambda: cont.put_slice(new, start, stop, field, raw=True)
         elif op == 'raw-put-to':
             # raw put of one node through the end of a LATER node (`to=`): same statement, a later `;` statement on the same
             # line, a later line, another block
@@ -978,6 +1009,16 @@ def pfst_text(text):
     return text + '\n' if text.endswith('\\\n') else text      # documented convention of pfst's parse functions
 
 
+def has_cont_guard():
+    """does the guard of the implementation under test refuse a line continuation after the parsed node (fix C10-F11)?"""
+    import inspect
+    import fst.fst_raw as fr
+    try:
+        return "after == '\\\\'" in inspect.getsource(recorder()._orig[0] if _REC else fr._reparse_raw_base)
+    except Exception:
+        return False
+
+
 def has_blkhead_end_check():
     """does the implementation under test have the header-end guard of fix C10-F9 (parameter `blkhead_end` of
     `_reparse_raw_base`)?  The model has the guard as an input (`headEndSame`); it is fed only if the code has it."""
@@ -1112,8 +1153,9 @@ def phase_c(arg):
     hl = m['handed'][last.end_lineno - 1]
     rest = hl[char_col(hl, last.end_col_offset):].strip()
     real_rest = lines[st['bloc'][2]][st['bloc'][3]:].strip()      # what follows the OLD node on its last line in the real source
-    if rest and rest != '\\' and (real_rest or not rest.startswith('#')):
+    if rest and (rest != '\\' or has_cont_guard()) and (real_rest or not rest.startswith('#')):
         follows = True                                            # (a new comment would swallow `real_rest`)
+    out['cont_after'] = rest == '\\'
     mode = {'set_ast': m['set_ast'], 'first_lineno': m['first_lineno'], 'delta': m['delta'],
             'no_end_copy': st['kind'] == 'match_case', 'follows': follows}
     if st['kind'] == 'ExceptHandler' and len(st['path']) >= 1:
@@ -1169,7 +1211,7 @@ def build_predicted(r, m, tree_out):
     return T0
 
 
-OPSIG = {'put_src': 'put_src-reparse', 'raw-put': 'raw-put', 'raw-put-to': 'raw-put-to', 'reparse': 'reparse'}
+OPSIG = {'raw-slice': 'raw-slice', 'put_src': 'put_src-reparse', 'raw-put': 'raw-put', 'raw-put-to': 'raw-put-to', 'reparse': 'reparse'}
 
 
 def phase_e(arg):
@@ -1205,7 +1247,7 @@ def phase_e(arg):
                 res['fail'].append((sig('not-atomic'), f'raised {raised[0]} but source or tree changed'))
             return res
         if not reached:
-            if r['op'] in ('raw-put', 'raw-put-to') and raised[0] in ('ValueError', 'NodeError', 'IndexError'):
+            if r['op'] in ('raw-put', 'raw-put-to', 'raw-slice') and raised[0] in ('ValueError', 'NodeError', 'IndexError'):
                 res['tally']['refused_before_reparse'] = True     # argument validation of the node put (delete / insert contract)
                 return res
             if R is not None:
@@ -1220,6 +1262,11 @@ def phase_e(arg):
     # rectangle actually used (raw put): must be the CPython span of the node
     rect_ev = ev_of(r, 'rect') if reached else None
     if rect_ev is not None and (rect_ev['rect'] != list(rect) or '\n'.join(rect_ev['new_lines']) != r['new']):
+        if r['op'] == 'raw-slice':
+            res['fail'].append((sig('rectangle-differs'),
+                                f'put_slice{tuple(r["slice"])} replaced the rectangle {rect_ev["rect"]} with {chr(10).join(rect_ev["new_lines"])!r}; the statements '
+                                f'[{r["slice"][1]}:{r["slice"][2]}) of that field (decorators and trailing comment of a block included) are {list(rect)}'))
+            return res
         if r['op'] in ('raw-put', 'raw-put-to'):
             if r.get('loc_bad_before'):
                 pass        # the locations were already wrong before this step (stale cache): judged below by the splice and the tree
@@ -1318,6 +1365,8 @@ def phase_e(arg):
         else:
             diffs = pos_diffs(P, R)
             cls = classify_positions(diffs, st['path'])
+            if cls == 'ancestor-end-stale' and c.get('cont_after'):
+                cls = 'ancestor-end-stale|after-continuation'
             if cls.startswith('positions-differ|'):
                 # the implementation does exactly what the model says and the structure is right, but the node parsed
                 # inside the wrapper has other positions than the same text parsed in place (ParseLocal false)
@@ -1495,4 +1544,86 @@ def tail_chain_edits():
             for new, rect in (('  # 2', (ln, c, ln, e)), ('', (ln, c, ln, e)), ('(arg, 2, 33)', (ln, c, ln, e)),
                               ('(arg,\n' + ' ' * depth + '     2)  # c', (ln, c, ln, e)), ('pass  # c', (ln, lines[ln].index('res'), ln, e))):
                 out.append((src, (new, *rect), 'chain:' + '>'.join(chain)))
+    return out
+
+
+# ---------------------------------------------------------------------------------------------------------------------
+# raw-mode slice puts to statement-list fields
+
+SLICE_TEXTS = {
+    'stmt': ['zq = 1', 'def g(self): pass', 'async def h(): pass', 'class L(K): x = 1', 'y = 8\nz = 9', 'pass  # c',
+             '@dd\ndef g(): pass', 'if t: u = 1'],
+    'handler': ['except Z: pass', 'except (A, B) as e:\n    zq = 1'],
+    'case': ['case 9: pass', 'case [x, y] if x:\n    zq = 1'],
+}
+
+
+def slice_elems(cont, field):
+    """the elements a raw slice put to `field` counts (CPython tree): `_body` is `body` without a leading docstring"""
+    if field == '_body':
+        body = cont.body
+        if body and isinstance(cont, (ast.Module, ast.FunctionDef, ast.AsyncFunctionDef, ast.ClassDef)) and \
+                isinstance(body[0], ast.Expr) and isinstance(getattr(body[0].value, 'value', None), str):
+            return body[1:]
+        return body
+    return getattr(cont, field, None) or []
+
+
+def slice_rect(tree, lines, path, field, start, stop):
+    """the rectangle of elements [start:stop) from CPython positions only: from the first decorator of the first element to
+    the end (trailing line comment of a block statement included) of the last"""
+    cont = follow(tree, path)
+    el = slice_elems(cont, field)
+    if not (0 <= start < stop <= len(el)):
+        return None
+    real = 'body' if field == '_body' else field
+    off = len(getattr(cont, real)) - len(el)
+    a = cpy_bloc(tree, lines, list(path) + [[real, start + off]])
+    b = cpy_bloc(tree, lines, list(path) + [[real, stop - 1 + off]])
+    if a is None or b is None:
+        # match_case has no position: pattern start searched back to `case`, end = end of last body statement (+ comment)
+        def mc(i):
+            n = getattr(cont, real)[i]
+            kw = _case_kw('\n'.join(lines), n.pattern)
+            last = n.body[-1]
+            eln, ecol = last.end_lineno - 1, char_col(lines[last.end_lineno - 1], last.end_col_offset)
+            if lines[eln].find('#', ecol) != -1:      # a match_case is a block: the trailing line comment of its last line belongs to it
+                ecol = len(lines[eln])
+            return [kw[0] - 1, kw[1], eln, ecol]
+        if field != 'cases':
+            return None
+        a = a or mc(start + off)
+        b = b or mc(stop - 1 + off)
+    return [a[0], a[1], b[2], b[3]]
+
+
+SLICE_TEMPLATES = [
+    ('class C:\n    """doc"""\n    @staticmethod\n    def f(): pass\n    b = 2\n    @dc ( 1 )\n    class K: pass  # k\n', [['body', 0]], '_body'),
+    ('@deco(1)\n@other\ndef f():\n    return 1\nb = 2\n@dd\nasync def g(): pass\nc = 3', [], '_body'),
+    ('"""mod doc"""\n@deco\nclass A: pass\nb = 2', [], '_body'),
+    ('if t:\n    a = 1\n    @dc\n    class K: pass\n    c = 3  # c\n', [['body', 0]], '_body'),
+    ('def f():\n    """doc"""\n    a = 1\n    @d\n    def g(): pass\n    c = 3', [['body', 0]], '_body'),
+    ('if t:\n    p\nelse:\n    @d\n    def f(): pass  # c\n    q\n', [['body', 0]], 'orelse'),
+    ('for i in x:\n    p\nelse:\n    q\n    @d\n    class K:\n        z = 1  # z\n', [['body', 0]], 'orelse'),
+    ('try:\n    p\nfinally:\n    @d\n    class K: pass\n    q\n', [['body', 0]], 'finalbody'),
+    ('try:\n    p\nexcept A:\n    a\nexcept B as e:\n    b  # b\nexcept:\n    c\n', [['body', 0]], 'handlers'),
+    ('match m:\n    case 1:\n        a\n    case [x]:\n        b\n    case _:\n        c\n', [['body', 0]], 'cases'),
+    ('while a:\n    @d\n    def g(): pass\n', [['body', 0]], '_body'),
+]
+
+
+def slice_edits():
+    """[(src, script-entry, label)]: every [start:stop) of every template's field x every replacement text of its kind"""
+    out = []
+    for src, path, field in SLICE_TEMPLATES:
+        tree = ast.parse(src)
+        lines = src.split('\n')
+        n = len(slice_elems(follow(tree, path), field))
+        kind = {'handlers': 'handler', 'cases': 'case'}.get(field, 'stmt')
+        for start in range(n):
+            for stop in range(start + 1, n + 1):
+                rect = slice_rect(tree, lines, path, field, start, stop)
+                ind = lines[rect[0]][:rect[1]]
+                for new in SLICE_TEXTS[kind]:
+                    out.append((src, ('raw-slice', path, field, start, stop, new.replace('\n', '\n' + ind)), 'slice:' + field))
     return out
